@@ -22,7 +22,7 @@ def cases(tier, seed, args):
     out = []
     for i in range(64 if q else 640):
         dist = DISTS[i % 8]
-        lo = 2 if dist in ('cacg', 'watson', 'bingham', 'vmf') else 1
+        lo = 2 if dist in ('cacg', 'watson', 'bingham') else 1      # (the real sphere S^0 = {-1, +1} is a legitimate vMF domain)
         hi = 6 if dist in ('cacg', 'watson', 'bingham') else 8
         out.append(dict(t='density', dist=dist, D=int(rng.integers(lo, hi + 1)), L=[int(rng.integers(1, 3)) for _ in range(int(rng.integers(0, 3)))],
                         P=int(rng.integers(2, 5)), seed=int(rng.integers(1 << 30)),
@@ -50,7 +50,7 @@ def cases(tier, seed, args):
         for j, kap in enumerate(grid):
             out.append(dict(t='density', dist='watson', D=D, L=[], P=1, seed=int(rng.integers(1 << 30)), cond=1.0,
                             kappa_exp=float(np.log10(kap * (1 + 0.2 * rng.random()))), mean_scale=1.0, layout='C', exact_kappa=True))
-    for D in ((2, 3, 5, 8) if q else (2, 3, 4, 5, 6, 7, 8)):
+    for D in ((1, 2, 3, 5, 8) if q else (1, 2, 3, 4, 5, 6, 7, 8)):
         for j, kap in enumerate(grid[::2]):
             out.append(dict(t='density', dist='vmf', D=D, L=[], P=1, seed=int(rng.integers(1 << 30)), cond=1.0,
                             kappa_exp=float(np.log10(kap * (1 + 0.2 * rng.random()))), mean_scale=1.0, layout='C', exact_kappa=True))
